@@ -1,5 +1,5 @@
 """C09: affine_conditional_transformation is Bayes' rule; double transformation round-trips."""
-from .condprops import make_case, rotations
+from .condprops import make_case, rotations, CTOR_VARIANTS
 
 PROP = "C09"
 KINDS = ["full", "diag", "identity", "identitydiag", "nncontrol"]
@@ -50,8 +50,8 @@ def cases(tier, seed=0):
     # constructor / history variants: built from the precision only; update_Sigma before the operation
     for kind in KINDS:
         dd = (2, 2) if kind.startswith("identity") else (2, 1)
-        for var in (("viaL",), ("upd",)):
-            if kind == "nncontrol" and var == ("viaL",):
+        for var in CTOR_VARIANTS:
+            if kind == "nncontrol" and var in (("viaL",), ("viaSL",)):
                 continue
             sm = var + ((("Sx",) if dd == (2, 2) else ()))
             out.append(make_case(PROP, "bayes", kind, dd[0], dd[1], 1, 1, semi=sm, timeout=600))
